@@ -96,7 +96,7 @@ impl Profile for ProxyTwin {
                     sender: rng.pick(accounts).clone(),
                     args: Value::Object(args),
                     funds: match rng.below(4) { 0 => Some(vec![Coin::new(rng.range(1, 60) as u128, "ucoin")]), 1 => Some(vec![]), _ => None },
-                    label: if rng.chance(2, 3) { Some(format!("lbl{}", sg.nonce())) } else { None },
+                    label: match rng.below(6) { 0 | 1 => None, 2 => Some(String::new()), _ => Some(format!("lbl{}", sg.nonce())) },
                     admin: if rng.chance(1, 2) { Some(rng.pick(accounts).clone()) } else { None },
                     salt: if rng.chance(1, 3) { let n = rng.range(1, 8) as usize; Some(Doc(rng.bytes(n))) } else { None },
                 }));
@@ -116,7 +116,17 @@ impl Profile for ProxyTwin {
                 slot,
                 sender: if kind == Kind::Migrate && rng.chance(3, 4) { accounts[3].clone() } else { rng.pick(accounts).clone() },
                 args: Value::Object(args),
-                funds: if kind == Kind::Exec { match rng.below(5) { 0 => Some(vec![Coin::new(rng.range(1, 60) as u128, "ucoin")]), 1 => Some(vec![]), _ => None } } else { None },
+                funds: if kind == Kind::Exec {
+                    match rng.below(6) {
+                        0 => Some(vec![Coin::new(rng.range(1, 60) as u128, "ucoin")]),
+                        1 => Some(vec![]),
+                        // several coins, in an order of the caller's choosing
+                        2 => Some(vec![Coin::new(rng.range(1, 9) as u128, "ucoin"), Coin::new(rng.range(1, 9) as u128, "uatom")]),
+                        _ => None,
+                    }
+                } else {
+                    None
+                },
                 label: None,
                 admin: None,
                 salt: None,
